@@ -1187,6 +1187,8 @@ class _Env:
             return _call_function(self.f, fn, args, kwargs, self.depth + 1)
         if isinstance(fn, ClassVal):
             return _construct(self, fn, args, kwargs, e)
+        if isinstance(fn, AObj) and callable(fn):
+            return fn(*args, **kwargs)       # an abstract stand-in that is itself callable (scripted user callables)
         raise _Abort(f'call of {type(fn).__name__}')
 
 
